@@ -134,10 +134,13 @@ public:
 // ---------------------------------------------------------------- G3 structured
 // (a) binary rules whose children are reached by different trees; inclusion holds only
 //     through several bigger states at once
+inline RTA mutate(Rng& g, const Alpha& al, const RTA& a);
+inline RTA unionRM(const RTA& a, const RTA& b);
+inline RTA shiftStates(const RTA& a, St off);
 inline void structuredPair(Rng& g, Alpha& al, RTA& a, RTA& b)
 {
 	al.rank = {0, 0, 2, 1};
-	int kind = static_cast<int>(g.below(5));
+	int kind = static_cast<int>(g.below(6));
 	a = RTA(); b = RTA();
 	auto R = [](int sym, std::vector<St> ch, St par) { RRule r; r.sym = sym; r.ch = ch; r.par = par; return r; };
 	if (kind == 0)
@@ -188,6 +191,24 @@ inline void structuredPair(Rng& g, Alpha& al, RTA& a, RTA& b)
 		for (St x = 0; x < static_cast<St>(nb); ++x) for (St y = 0; y < static_cast<St>(nb); ++y) if (!g.chance(1, 4)) b.rules.insert(R(2, {x, y}, g.below(nb)));
 		for (int i = 0; i < g.range(2, 8); ++i) b.rules.insert(R(3 + static_cast<int>(g.below(2)), {g.below(nb)}, g.below(nb)));
 		for (int i = 0; i < g.range(1, 3); ++i) b.fin.insert(g.below(nb));
+	}
+	else if (kind == 4)
+	{	// simulation-rich: copies of one core automaton, weakened (rules/final states removed) and
+		// strengthened (rules added), spread over both operands — the simulation preorders of the disjoint
+		// union contain strict chains q < q' < q'', within and across the operands (simulation-assisted
+		// pruning of the antichains; seeded change m63)
+		al = randAlpha(g);
+		RTA x = randProductiveTA(g, al, numbering(g, g.range(2, 4), 0), g.range(3, 8), 0);
+		auto weaker = [&](RTA y) { int n = g.range(1, 2); for (int i = 0; i < n && y.rules.size() > 1; ++i) { auto it = y.rules.begin(); std::advance(it, g.below(y.rules.size())); y.rules.erase(it); } return y; };
+		auto stronger = [&](RTA y) { std::set<St> ss = y.states(); std::vector<St> st(ss.begin(), ss.end()); if (st.empty()) return y; RTA e = randTA(g, al, st, g.range(1, 3), 0); y.rules.insert(e.rules.begin(), e.rules.end()); if (g.chance(1, 3)) y.fin.insert(st[g.below(st.size())]); return y; };
+		RTA lo = weaker(x), hi = stronger(x);
+		int m = static_cast<int>(g.below(4));
+		if (m == 0) { a = unionRM(lo, shiftStates(x, 10)); b = unionRM(x, shiftStates(hi, 10)); }
+		else if (m == 1) { a = unionRM(x, shiftStates(lo, 10)); b = unionRM(unionRM(lo, shiftStates(hi, 10)), shiftStates(x, 20)); }
+		else if (m == 2) { a = unionRM(x, shiftStates(hi, 10)); b = unionRM(hi, shiftStates(stronger(lo), 10)); }
+		else { a = unionRM(lo, shiftStates(weaker(lo), 10)); b = unionRM(stronger(hi), shiftStates(x, 10)); }
+		if (g.chance(1, 4)) b = mutate(g, al, b);
+		if (g.chance(1, 4)) a = mutate(g, al, a);
 	}
 	else
 	{	// small A, large B (many macro-states created and destroyed in one check)
